@@ -104,6 +104,7 @@ pub fn ext_resolve(func: &str, s: &str, answers: &Answers) -> Result<(String, us
 }
 
 fn ext_answer(func: &str, s: &str) -> Result<(String, usize), &'static str> {
+    crate::real::maybe_nested_traced_parse();
     // under the schedule explorer a user function is a scheduling point: other parses may run "inside" it
     crate::real::do_yield();
     log(func, s.to_string());
@@ -112,7 +113,7 @@ fn ext_answer(func: &str, s: &str) -> Result<(String, usize), &'static str> {
 
 /// The answer of a check function when the table has none: a pure function of the argument.
 pub fn check_default(func: &str, arg: &str) -> bool {
-    if func.ends_with("chk_nob") {
+    if func.ends_with("chk_nob") || func.ends_with("chkx_nob") {
         !arg.contains('b')
     } else if func.ends_with("chk_nob2") {
         // refuses values in which the string "bb" occurs (two adjacent b)
@@ -130,6 +131,7 @@ pub fn check_default(func: &str, arg: &str) -> bool {
 }
 
 fn check_answer(func: &str, arg: String) -> bool {
+    crate::real::maybe_nested_traced_parse();
     log(func, arg.clone());
     ENV.with(|e| e.borrow().answers.check.get(&(func.to_string(), arg.clone())).copied().unwrap_or_else(|| check_default(func, &arg)))
 }
@@ -161,6 +163,21 @@ macro_rules! probe {
         }
     };
 }
+/// probes of grammars compiled with a user context type
+macro_rules! probex {
+    ($name:ident) => {
+        pub fn $name(s: &str, ctx: &mut Ctx) -> Result<(U, usize), &'static str> {
+            ctx.touched += 1;
+            ext_answer(concat!("hrt::user::", stringify!($name)), s).map(|(_, n)| (U, n))
+        }
+    };
+}
+probex!(probex0);
+probex!(probex1);
+probex!(probex2);
+probex!(probex3);
+probex!(probex4);
+probex!(probex5);
 probe!(probe0);
 probe!(probe1);
 probe!(probe2);
@@ -226,6 +243,11 @@ chk!(chk1, chkc1, chkx1);
 /// refuses every value whose canonical form contains the letter b
 pub fn chk_nob<T: Debug>(v: &T) -> bool {
     check_answer("hrt::user::chk_nob", canon_of(v))
+}
+/// chk_nob for grammars compiled with a user context type
+pub fn chkx_nob<T: Debug>(v: &T, ctx: &mut Ctx) -> bool {
+    ctx.touched += 1;
+    check_answer("hrt::user::chkx_nob", canon_of(v))
 }
 /// refuses every value whose canonical form contains "bb"
 pub fn chk_nob2<T: Debug>(v: &T) -> bool {
